@@ -4,7 +4,7 @@
    cap_sasl.go, the sasl part of handleCAP, registerBuiltins' routing, execLoop's ERROR
    exit, the credential writes of internalConnect / Cmd.Oper and the Sensitive/Echo gates
    of the loggers; Spec/SaslSpec.v is the property's own reading of "chunks". *)
-Require Import Bytes Utf8 Base64 Sasl SaslSpec Base64Lemmas SaslProofs SaslFailClosed SaslLogProofs.
+Require Import Bytes Utf8 Base64 Sasl SaslSpec Base64Lemmas SaslProofs SaslFailClosed SaslLogProofs SaslStateful.
 
 (* ---- chunking ------------------------------------------------------------------ *)
 
@@ -195,3 +195,48 @@ Theorem C09_oper_log_constant : forall strip_raw pretty_rest u p u' p',
   write_log strip_raw pretty_rest (oper_event u p) = write_log strip_raw pretty_rest (oper_event u' p').
 Proof. exact oper_log_constant. Qed.
 Print Assumptions C09_oper_log_constant.
+
+(* ---- fail-closed for mechanisms that keep state ---------------------------------------
+   "all mechanisms implementing SASLMech": a Go mechanism may answer differently at every
+   call.  A step pairs the server's event with the mechanism as it behaves at that step
+   (Model/Sasl.v run_stateful); a pure mechanism is the special case C09_stateful_pure. *)
+Theorem C09_stateful_pure : forall c m h cn,
+  run_stateful c cn (List.map (fun e => (m, e)) h) = run (set_sasl c m) cn h.
+Proof. exact rs_pure. Qed.
+Print Assumptions C09_stateful_pure.
+
+Theorem C09_stateful_no_cap_end : forall c, cfg_tracking c = true ->
+  forall s1 s2 cn cn' outs,
+  Forall step_in_alphabet s1 -> Forall (fun x => ev_cmd (snd x) <> n903) s1 ->
+  run_stateful c cn (s1 ++ s2) = Ok (cn', outs) ->
+  exists cn1 o1 o2,
+    run_stateful c cn s1 = Ok (cn1, o1) /\ run_stateful c cn1 s2 = Ok (cn', o2) /\ outs = o1 ++ o2 /\
+    Forall (fun w => ev_cmd w = c_AUTHENTICATE) (writes_of o1) /\ ~ In cap_end (writes_of o1).
+Proof. exact rs_no_cap_end_before_success. Qed.
+Print Assumptions C09_stateful_no_cap_end.
+
+Theorem C09_stateful_fail_closed : forall c, cfg_tracking c = true ->
+  forall s1 m e s2 ns,
+  Forall step_in_alphabet s1 -> Forall (fun x => step_fatalb x = false) s1 ->
+  in_alphabet e -> fatalb m e = true ->
+  exists o1,
+    run_stateful c (mkConn ns None) s1 = Ok (mkConn ns None, o1) /\
+    run_stateful c (mkConn ns None) (s1 ++ (m, e) :: s2) =
+      Ok (mkConn ns (Some (fatal_text m e)), o1 ++ [InjectError (fatal_text m e)]).
+Proof. exact rs_fails_closed. Qed.
+Print Assumptions C09_stateful_fail_closed.
+
+Theorem C09_stateful_error_iff_fatal : forall c, cfg_tracking c = true ->
+  forall steps ns cn' outs,
+  Forall step_in_alphabet steps -> run_stateful c (mkConn ns None) steps = Ok (cn', outs) ->
+  (cn_returned cn' <> None <-> Exists (fun x => step_fatalb x = true) steps).
+Proof. exact rs_returned_iff_fatal. Qed.
+Print Assumptions C09_stateful_error_iff_fatal.
+
+(* per-event non-interference (holds for whichever mechanism is in force at that event,
+   so it covers mechanisms that keep state as well) *)
+Theorem C09_step_ni : forall c1 c2 cn e, cfg_low_eq c1 c2 ->
+  exists cn' o1 o2, feed c1 cn e = Ok (cn', o1) /\ feed c2 cn e = Ok (cn', o2) /\
+    List.map redact_out o1 = List.map redact_out o2.
+Proof. exact feed_ni. Qed.
+Print Assumptions C09_step_ni.
